@@ -60,6 +60,11 @@ enum Shape {
     Comps(Vec<Option<CompInfo>>),
 }
 
+/// true iff the text is a canonical path of standard indices (the only texts that must be accepted)
+pub fn text_is_canonical_path(text: &str) -> bool {
+    matches!(expectation(&analyse(text)), Expect::Valid(_))
+}
+
 /// Byte-level scanner (deliberately not built from strip_prefix/split, which
 /// is what the code under test uses).
 fn analyse(text: &str) -> Shape {
@@ -975,7 +980,8 @@ fn judge_vanity_cli(c: &VanityCliCase, cls: &mut Classifier) -> Verdict {
     if !must_err {
         return fail("a value that must be refused", c.value.clone(), "bad replay case");
     }
-    let out = cli::run(&exe, &c.inv, Duration::from_secs(60));
+    // the value must be refused before a search starts: a run that is still computing after 10 CPU-seconds is not refusing
+    let out = cli::with_cpu_budget(10, || cli::run(&exe, &c.inv, Duration::from_secs(60)));
     if out.timed_out {
         cls.label("cli:timeout");
         return Ok(());
